@@ -10,7 +10,7 @@ OUT_KINDS = ["default", "ab", "none"]
 def gen_spec(ch, n, payloads, outs_palette=None, allow_noout=True, max_inputs=2, input_names=("x", "y")):
     """Plain description: list of nodes in topological order.
     node = {"outputs": None|[...], "payload": p, "inputs": [(iname, parent index, output name)]}"""
-    outs_palette = outs_palette or {"default": None, "ba": ["b", "a"], "none": []}  # declared order deliberately not sorted
+    outs_palette = outs_palette or {"default": None, "ba": ["b", "a"], "none": [], "solo": ["only"]}  # declared order deliberately not sorted; one named output
     kinds = [k for k in outs_palette if allow_noout or outs_palette[k] != []]
     spec = []
     for j in range(n):
